@@ -37,6 +37,7 @@ type scriptedResp struct {
 }
 
 type scriptTransport struct {
+	noRequest bool // leave Response.Request nil
 	resps     []scriptedResp
 	n         int
 	exhausted bool
@@ -110,6 +111,11 @@ func (t *scriptTransport) RoundTrip(req *http.Request) (*http.Response, error) {
 		StatusCode: r.status, Status: fmt.Sprintf("%d %s", r.status, http.StatusText(r.status)),
 		Proto: "HTTP/1.1", ProtoMajor: 1, ProtoMinor: 1, Header: h, Request: req,
 		ContentLength: int64(len(r.body)),
+	}
+	if t.noRequest {
+		// a RoundTripper is not obliged to fill in Response.Request (http.Transport does; one that serves an
+		// http.Handler through httptest.ResponseRecorder does not), and http.Client does not do it for it
+		resp.Request = nil
 	}
 	hb := &heldBody{r: strings.NewReader(r.body)}
 	if r.body == "" || req.Method == "HEAD" || r.status < 200 || r.status == 204 || r.status == 304 {
@@ -262,6 +268,11 @@ func c18Op(t []string) string {
 	op := t[2]
 	nresp, _ := strconv.Atoi(t[3])
 	tr := &scriptTransport{}
+	if strings.Contains(op, "^") {
+		// <op>^: the client is configured with a transport that leaves Response.Request unset
+		tr.noRequest = true
+		op = strings.ReplaceAll(op, "^", "")
+	}
 	rest := t[4:]
 	for i := 0; i < nresp; i++ {
 		st, _ := strconv.Atoi(rest[0])
@@ -535,6 +546,20 @@ func (*c18) Gen(rng *RNG, tier string) []Case {
 				}
 				cases = append(cases, Case{Tag: "directed-bad-digest-argument", Lines: []string{line}})
 			}
+		}
+	}
+	// directed: a transport that does not fill in Response.Request (a client configuration): error answers, Location
+	// answers and paged listings are where the client used to look at it
+	for _, op := range []string{"GetBlob", "ResolveBlob", "GetTag", "PushBlob", "PushBlobChunked", "ResumeAsk", "MountBlob", "Tags", "Repositories", "Referrers", "DeleteTag", "PushManifest"} {
+		for _, resp := range []string{
+			"404 x 0", "401 " + tok(`{"errors":[{"code":"UNAUTHORIZED"}]}`) + " 0", "500 " + tok("oops") + " 0",
+			fmt.Sprintf("202 x 2 %s %s %s %s", tok("Location"), tok("/v2/foo/blobs/uploads/abc"), tok("Range"), tok("0-0")),
+			fmt.Sprintf("201 x 1 %s %s", tok("Location"), tok("/v2/foo/blobs/uploads/abc")),
+			fmt.Sprintf("200 %s 1 %s %s", tok(`{"name":"foo","tags":["a","b"]}`), tok("Link"), tok(`</v2/foo/tags/list?n=2&last=b>; rel="next"`)),
+			fmt.Sprintf("200 %s 0", tok(`{"repositories":["a","b"]}`)),
+		} {
+			line := fmt.Sprintf("cl 2 %s^ 4 %s %s %s %s", op, resp, resp, resp, resp)
+			cases = append(cases, Case{Tag: "directed-transport-without-response-request", Lines: []string{line}})
 		}
 	}
 	// directed: chunk-size hints of every magnitude (the interface calls the argument a hint; it must not be trusted
